@@ -3,10 +3,13 @@ package c03
 
 import (
 	"bytes"
+	"encoding/hex"
+	"encoding/json"
 	"errors"
 	"fmt"
 	"io"
 	"net"
+	"os"
 	"sync"
 	"testing"
 	"time"
@@ -41,6 +44,7 @@ type Case struct {
 	DelayUs int     `json:"delay_us,omitempty"` // encoder/baseconn: max write delay
 	Pauses  []int   `json:"pauses,omitempty"`   // encoder: microseconds to sleep before write i (cyclic)
 	Conns   int     `json:"conns,omitempty"`    // concurrent: number of connections sending the sequence at the same time
+	Raw     string  `json:"raw,omitempty"`      // stream: arbitrary bytes (hex) instead of Pkts
 }
 
 type verdict struct{ sig, msg string }
@@ -555,6 +559,9 @@ func runConcurrent(c *Case) *verdict {
 
 func runCase(c *Case) *verdict {
 	switch c.Layer {
+	case "stream":
+		raw, _ := hex.DecodeString(c.Raw)
+		return judgeStream(raw, c.Plan, c.Limit)
 	case "concurrent":
 		return runConcurrent(c)
 	case "decoder", "truncate":
@@ -656,7 +663,7 @@ func classify(c *Case) (nontrivial bool) {
 
 func TestC03(t *testing.T) {
 	run := ev.Start("C03", "exploration")
-	run.Rule("packet sequences of 1-12 packets over all 14 types, sizes biased to the 4096-byte buffer boundary and to the read limit (+-12), pushed through each stream layer under a chunk plan (cyclic list of read/write/message sizes; 1-byte, around 4096, random up to 6000, empty WebSocket messages): (a) packet.Decoder over a reader that returns chunks per plan - for streams up to 64 bytes EVERY split point and the 1-byte plan are enumerated; (b) the stream cut at every offset of the last packet (short streams) or at generated offsets; (c) read limit around the packet sizes with a reader that supplies the fixed header only (a second read = the decoder buffered before refusing); (d) packet.Encoder with generated async flags, max write delay 0/1/5 ms and pauses, bytes compared with the reference encodings; (e) BaseConn pair over the in-memory carrier with the re-chunker; (f) TCP loopback with a raw socket writer following the plan into a NetConn; (g) WebSocket loopback: raw gorilla client -> WebSocketConn with message boundaries per plan, and WebSocketConn -> raw client; (h) 2-8 BaseConn pairs over synchronous net.Pipe carriers sending the sequence (with packets of 9-33 KiB) at the same time (they share the codec's buffer pool). Oracle: the receiver obtains exactly the sent packets in order, then an error and never an extra packet; a torn packet yields an error, not a packet and not a clean EOF; wire bytes = concatenation of the reference encodings. non-trivial = a fragment boundary strictly inside a fixed header, a packet straddling the 4096-byte boundary, or >= 2 packets; distinct by case")
+	run.Rule("packet sequences of 1-12 packets over all 14 types, sizes biased to the 4096-byte buffer boundary and to the read limit (+-12), pushed through each stream layer under a chunk plan (cyclic list of read/write/message sizes; 1-byte, around 4096, random up to 6000, empty WebSocket messages): (a) packet.Decoder over a reader that returns chunks per plan - for streams up to 64 bytes EVERY split point and the 1-byte plan are enumerated; (b) the stream cut at every offset of the last packet (short streams) or at generated offsets; (c) read limit around the packet sizes with a reader that supplies the fixed header only (a second read = the decoder buffered before refusing); (d) packet.Encoder with generated async flags, max write delay 0/1/5 ms and pauses, bytes compared with the reference encodings; (e) BaseConn pair over the in-memory carrier with the re-chunker; (f) TCP loopback with a raw socket writer following the plan into a NetConn; (g) WebSocket loopback: raw gorilla client -> WebSocketConn with message boundaries per plan, and WebSocketConn -> raw client; (i) metamorphic: arbitrary byte streams (valid streams with generated mutations; native fuzzing in the thorough tier) decoded in one piece and under a chunk plan must give the same packets and the same kind of final error; (h) 2-8 BaseConn pairs over synchronous net.Pipe carriers sending the sequence (with packets of 9-33 KiB) at the same time (they share the codec's buffer pool). Oracle: the receiver obtains exactly the sent packets in order, then an error and never an extra packet; a torn packet yields an error, not a packet and not a clean EOF; wire bytes = concatenation of the reference encodings. non-trivial = a fragment boundary strictly inside a fixed header, a packet straddling the 4096-byte boundary, or >= 2 packets; distinct by case")
 	run.Assume("trusts verif/internal/refcodec for the wire bytes (checked against the library by C01)", "real TCP segmentation is whatever loopback does with the write plan")
 	defer run.Finish(t)
 	exec := func(c *Case) *verdict {
@@ -740,6 +747,32 @@ func TestC03(t *testing.T) {
 			rt.Fatalf("%s: %s", v.sig, v.msg)
 		}
 	})
+	run.Rapid(t, "streams", ev.Pick(500, 40000), func(rt *rapid.T) {
+		// a valid stream with a few generated mutations (flipped bytes, inserted garbage, cut) read under a plan
+		_, _, stream := buildAll(&Case{Pkts: genPkts(rt, 6, []int{100, 4090})})
+		data := append([]byte{}, stream...)
+		for n := rapid.IntRange(0, 4).Draw(rt, "mutations"); n > 0 && len(data) > 0; n-- {
+			i := rapid.IntRange(0, len(data)-1).Draw(rt, "pos")
+			switch rapid.IntRange(0, 3).Draw(rt, "mut") {
+			case 0:
+				data[i] ^= byte(1 << uint(rapid.IntRange(0, 7).Draw(rt, "bit")))
+			case 1:
+				data = append(data[:i], append(rapid.SliceOfN(rapid.Byte(), 1, 5).Draw(rt, "ins"), data[i:]...)...)
+			case 2:
+				data = data[:i]
+			case 3:
+				data[i] = byte(rapid.SampledFrom([]int{0x00, 0xFF, 0x80, 0x7F}).Draw(rt, "val"))
+			}
+		}
+		c := &Case{Layer: "stream", Raw: hex.EncodeToString(data), Plan: genPlan(rt, false), Limit: int64(rapid.SampledFrom([]int{1 << 16, 1 << 16, 50, 4096}).Draw(rt, "slimit"))} // never unlimited: a mutated length may declare 256 MiB
+		run.Eval(1)
+		run.Class("layer=stream-metamorphic")
+		run.NonTrivialJSON(c)
+		if v := runCase(c); v != nil {
+			run.Candidate(v.sig, v.msg, c)
+			rt.Fatalf("%s: %s", v.sig, v.msg)
+		}
+	})
 	run.Rapid(t, "limit", ev.Pick(300, 20000), func(rt *rapid.T) {
 		c := &Case{Layer: "limit", Limit: int64(rapid.SampledFrom([]int{2, 4, 100, 4096, 4100, 8192}).Draw(rt, "limit"))}
 		c.Pkts = genPkts(rt, 6, []int{int(c.Limit) - 8, int(c.Limit) - 4, int(c.Limit), 4090})
@@ -803,4 +836,76 @@ func TestReplay(t *testing.T) {
 		}
 	}
 	t.Log("case passes")
+}
+
+// ---- metamorphic relation on arbitrary byte streams: whatever the chunking,
+// the decoder yields the same packets and ends with the same kind of error
+
+func decodeAll(data []byte, plan []int, limit int64) (pkts []*refcodec.Packet, end string) {
+	d := packet.NewDecoder(&chunkReader{data: append([]byte{}, data...), plan: plan, end: io.EOF})
+	d.SetReadLimit(limit)
+	for i := 0; i < 10000; i++ {
+		g, err := d.Read()
+		if err != nil {
+			switch err {
+			case io.EOF:
+				return pkts, "eof"
+			case io.ErrUnexpectedEOF:
+				return pkts, "unexpected-eof"
+			case packet.ErrReadLimitExceeded:
+				return pkts, "limit"
+			case packet.ErrDetectionOverflow:
+				return pkts, "overflow"
+			}
+			return pkts, "error"
+		}
+		pkts = append(pkts, conv.Norm(conv.FromLib(g)))
+	}
+	return pkts, "too-many"
+}
+
+func judgeStream(data []byte, plan []int, limit int64) *verdict {
+	a, ea := decodeAll(data, nil, limit)
+	b, eb := decodeAll(data, plan, limit)
+	if len(a) != len(b) {
+		return vf("metamorphic/packet-count", "the same %d bytes decode to %d packets in one piece and to %d packets when read in chunks %v (ends: %s / %s)", len(data), len(a), len(b), plan, ea, eb)
+	}
+	for i := range a {
+		if ok, why := conv.Equal(a[i], b[i]); !ok {
+			return vf("metamorphic/packet-differs", "packet %d differs between one-piece and chunked (%v) decoding: %s", i, plan, why)
+		}
+	}
+	if ea != eb {
+		return vf("metamorphic/end-differs", "after %d packets the stream ends with %q in one piece and %q in chunks %v", len(a), ea, eb, plan)
+	}
+	// and every packet the decoder returned is a packet of the stream: re-encoding the
+	// prefix of reference packets must reproduce a prefix of the bytes, unless leniencies re-normalise
+	return nil
+}
+
+func FuzzC03(f *testing.F) {
+	for _, ps := range [][]PSpec{{{Type: 12}, {Type: 3, Size: 3, QoS: 1}}, {{Type: 8, Size: 20}, {Type: 9, Size: 2}}, {{Type: 1, Size: 5}, {Type: 13}}, {{Type: 3, Size: 4090}, {Type: 14}}} {
+		_, _, s := buildAll(&Case{Pkts: ps})
+		f.Add(s, []byte{1}, uint16(0))
+		f.Add(s, []byte{3, 200, 7}, uint16(100))
+		f.Add(append(s[:len(s)-1], 0xFF, 0xFF, 0xFF, 0xFF, 0x7F), []byte{2}, uint16(0))
+	}
+	f.Fuzz(func(t *testing.T, data []byte, planBytes []byte, limit uint16) {
+		if len(data) > 1<<16 || len(planBytes) > 16 {
+			return
+		}
+		var plan []int
+		for _, b := range planBytes {
+			plan = append(plan, int(b)+1)
+		}
+		if limit == 0 {
+			limit = 65535 // never unlimited: the input may declare a 256 MiB packet
+		}
+		if v := judgeStream(data, plan, int64(limit)); v != nil {
+			out, _ := json.MarshalIndent(map[string]interface{}{"property": "C03", "signature": v.sig, "message": v.msg, "tier": "thorough", "case": &Case{Layer: "stream", Raw: hex.EncodeToString(data), Plan: plan, Limit: int64(limit)}}, "", " ")
+			_ = os.MkdirAll(ev.Root()+"/replays", 0o755)
+			_ = os.WriteFile(fmt.Sprintf("%s/replays/C03-fuzz-%x.json", ev.Root(), ev.Hash(v.sig)), out, 0o644)
+			t.Fatalf("%s: %s", v.sig, v.msg)
+		}
+	})
 }
